@@ -176,6 +176,7 @@ def weave(unit, repo=None, variant=None):
     eqmap = {}                                       # base index -> current index, for unchanged lines
     changed = []
     unequal_hunks = []
+    equal_size_hunks = []
     for op, i1, i2, j1, j2 in sm.get_opcodes():
         if op == "equal":
             for d in range(i2 - i1):
@@ -186,6 +187,7 @@ def weave(unit, repo=None, variant=None):
             if i2 - i1 == j2 - j1:
                 for d in range(i2 - i1):
                     emit[i1 + d] = [j1 + d]
+                equal_size_hunks.append((i1, i2 - i1, j1))
             else:
                 emit[i1] = list(range(j1, j2))
                 unequal_hunks.append((i1, i2))
@@ -256,6 +258,53 @@ def weave(unit, repo=None, variant=None):
             attach.setdefault(at, []).extend(idxs)
             moved.update(idxs)
         reanchored.append((i1, i2))
+    # identifier renames: when lines replaced one-for-one differ from their old text only by a consistent substitution of
+    # identifiers (a renamed local), and the old name is gone from the function while the new one was not there before, the
+    # same substitution is applied to the specification lines of that function
+    renames = {}   # function span (first, last base index) -> {old: new}
+    tok = re.compile(r"[A-Za-z_][A-Za-z0-9_]*|\s+|.")
+    bad_spans = set()
+    for (i1, n, j1) in equal_size_hunks:
+        for d in range(n):
+            b_t = [t for t in tok.findall(base[i1 + d].strip()) if not t.isspace()]
+            c_t = [t for t in tok.findall(cur[j1 + d].strip()) if not t.isspace()]
+            if b_t == c_t:
+                continue
+            span = fn_span(base, i1 + d)
+            if span[0] is None:
+                continue
+            if len(b_t) != len(c_t):
+                bad_spans.add(span)
+                continue
+            m = renames.setdefault(span, {})
+            for x, y in zip(b_t, c_t):
+                if x == y:
+                    continue
+                if not (re.match(r"^[A-Za-z_]\w*$", x) and re.match(r"^[A-Za-z_]\w*$", y)) or m.get(x, y) != y:
+                    bad_spans.add(span)
+                    break
+                m[x] = y
+    ident = re.compile(r"[A-Za-z_][A-Za-z0-9_]*")
+    applied_renames = {}
+    for span, m in renames.items():
+        if span in bad_spans or not m:
+            continue
+        cs = eqmap.get(span[0])
+        if cs is None:
+            continue
+        _c0, ce = fn_span(cur, cs)
+        if ce is None:
+            continue
+        cur_ids = set(x for l in cur[cs:ce + 1] for x in ident.findall(l))
+        base_ids = set(x for l in base[span[0]:span[1] + 1] for x in ident.findall(l))
+        a0, a1 = pos_of[span[0]], pos_of[span[1]]
+        spec_ids = set(x for z in range(a0, a1 + 1) if tags[z] is None for x in ident.findall(annotated[z]))
+        if any(o in cur_ids for o in m) or any(nw in base_ids or nw in spec_ids for nw in m.values()):
+            continue
+        for z in range(a0, a1 + 1):
+            if tags[z] is None:
+                annotated[z] = ident.sub(lambda mo: m.get(mo.group(0), mo.group(0)), annotated[z])
+        applied_renames[enclosing_fn(base, span[0]) or "?"] = dict(m)
     out = []
     origin = []  # per output line: ('code', base index or None) / ('spec', annotated index)
 
@@ -293,6 +342,7 @@ def weave(unit, repo=None, variant=None):
         "rules": rules,
         "changed": changed,
         "fuzzy_fns": sorted(f for f in fuzzy_fns if f),
+        "renames": applied_renames,
         "reanchored_fns": sorted(set(f for f in (enclosing_fn(base, i1) for (i1, _i2) in reanchored) if f)),
         "code_lines": sum(1 for o in origin if o[0] == "code"),
         "spec_lines": sum(1 for i, o in enumerate(origin) if o[0] == "spec" and out[i].strip()),
